@@ -451,7 +451,7 @@ func run(c Sx) Result {
 				}
 				if isKnown {
 					if known == "" {
-						known = fmt.Sprintf("synced items lost oversized-item: items [%d,%d) were synced, reopen exposes [%d,%d); item %d is an empty item appended while headBytes > maxFileSize, its index entry (file+1, offset 0) is rejected by checkIndexItems", hiddenPre, syncedHead, hidden2, items2, items2)
+						known = "synced items lost oversized-item: the first lost item is an empty item appended while headBytes > maxFileSize; its index entry (file+1, offset 0) is rejected by checkIndexItems at reopen"
 					}
 				} else {
 					addFail(fmt.Sprintf("synced items [%d,%d) not all present after reopen: range [%d,%d)", hiddenPre, syncedHead, hidden2, items2))
@@ -642,7 +642,7 @@ func genCase(r *Rng, ncuts int, adversarial bool) Sx {
 func gen(r *Rng, tier string, emit func(c Sx)) {
 	// hxlib's streams for seeds s and s+1 are shifts of one another; re-key on the first output
 	r = NewRng(r.U64())
-	nh, ncuts := 300, 48
+	nh, ncuts := 200, 48
 	if tier == "thorough" {
 		nh, ncuts = 1500, 90
 	}
